@@ -337,6 +337,9 @@ def big_continuum(pa, rng):
     return c
 
 
+_DISSIMS = {}
+
+
 def gen_config(pa, rng, quick, identical=False, force=None):
     force = force or {}
     n_ann, mu = rng.choice([(2, 4), (3, 3), (2, 6), (4, 2), (3, 4)])
@@ -368,8 +371,11 @@ def gen_config(pa, rng, quick, identical=False, force=None):
         if sampler != "stat" and all(len(c[a]) == 0 for a in gt):
             gt = None
     comb = rng.random() < 0.7
-    d = pa.CombinedCategoricalDissimilarity(alpha=rng.choice([1, 3]), beta=rng.choice([1, 2]), delta_empty=rng.choice([1.0, 1.0, 2.0])) \
-        if comb else pa.PositionalSporadicDissimilarity(delta_empty=rng.choice([1.0, 0.5]))
+    dkey = ("comb", rng.choice([1, 3]), rng.choice([1, 2]), rng.choice([1.0, 1.0, 2.0])) if comb else ("pos", rng.choice([1.0, 0.5]))
+    if dkey not in _DISSIMS:       # one object per parameter set (each new object is a JIT compilation numba never frees)
+        _DISSIMS[dkey] = pa.CombinedCategoricalDissimilarity(alpha=dkey[1], beta=dkey[2], delta_empty=dkey[3]) if comb \
+            else pa.PositionalSporadicDissimilarity(delta_empty=dkey[1])
+    d = _DISSIMS[dkey]
     if len(c.annotators) >= 4 and c.num_units > 40 and precision not in (None, 0.5, 0.3):
         precision = 0.3
     n_samples = rng.choice([1, 2, 3, 5, 8])
